@@ -785,6 +785,11 @@ impl<'r> Grammar<'r> {
             } else {
                 self.t(":");
                 self.inline_type();
+                // `absolute` clause on some variables (chosen from the name, so that no random draw is added)
+                if kw == "var" && i.len() % 4 == 1 {
+                    self.t("absolute");
+                    self.t("Value");
+                }
             }
             if self.rng.chance(1, 5) {
                 // portability directive on the declaration
